@@ -24,6 +24,13 @@ def check(tier, seed):
                 lines.append(f"drop_check {s} sk {src}"); meta.append(('sk ' + src.split(':')[0], want_sk))
             for src in (f"gen:{xi.hex()}", f"rt:{xi.hex()}", f"bytes:{pk.hex()}", f"der:gen:{xi.hex()}"):
                 lines.append(f"drop_check {s} pk {src}"); meta.append(('pk ' + src.split(':')[0], want_pk))
+        # deserialised keys whose leading fields are all-zero / all-FF (a drop glue that looks at the content must not skip them)
+        plen = R.pk_len(p)
+        for tag, pkb in (('rho=0', bytes(32) + bytes(rng.randrange(256) for _ in range(plen - 32))), ('all-00', bytes(plen)), ('all-FF', bytes([0xff]) * plen)):
+            lines.append(f"drop_check {s} pk bytes:{pkb.hex()}"); meta.append(('pk bytes ' + tag, want_pk))
+        sk0 = fam.keypair(s, bytes(32))[1]
+        for tag, skb in (('rho=0', bytes(32) + sk0[32:]), ('rho=K=tr=0', bytes(128) + sk0[128:]), ('K=FF', sk0[:32] + bytes([0xff]) * 32 + sk0[64:])):
+            lines.append(f"drop_check {s} sk bytes:{skb.hex()}"); meta.append(('sk bytes ' + tag, want_sk))
     for prof in ('fast', 'checked'):
         outs = core.run_stream([core.RUST[prof]], lines)
         for l, (tag, want), o in zip(lines, meta, outs):
@@ -38,7 +45,7 @@ def check(tier, seed):
                 rep.violation('implementation-vs-oracle', [l], {'profile': prof, 'output': o, 'oracle': 'every byte of the dropped key object must read zero'}, True)
             elif size != want:
                 rep.violation('implementation-vs-oracle', [l], {'profile': prof, 'output': o, 'oracle': f'size_of must equal the model layout {want} (no padding, no extra field)'}, True)
-            elif before < size // 3:
+            elif before < size // 3 and 'all-00' not in tag:
                 rep.violation('harness', [l], {'profile': prof, 'output': o, 'note': 'object was not populated before the drop: observation is blind'}, False)
             else:
                 rep.nontrivial.add((prof, l))
